@@ -15,7 +15,8 @@ func init() { Registry["C03"] = C03_Run }
 
 // C03 — on success the destination holds the documented coercion of the input.
 
-func C03_Jobs() []string {
+func C03_Jobs() []string { return append(c03_jobs0(), "json-records") }
+func c03_jobs0() []string {
 	return []string{
 		"int/int", "int/int32", "int/int64", "int/float64", "int/decstr", "int/bool", "int/literal-strings",
 		"int64/int", "int64/decstr", "int32/int32",
@@ -37,6 +38,10 @@ func c03ok(n int) {
 }
 
 func C03_Run(job string) {
+	if job == "json-records" {
+		jrCheck("C03")
+		return
+	}
 	if len(job) > 6 && job[:6] == "shape/" {
 		// on success every destination leaf of a nested schema equals the reference outcome
 		// (coerced input, default, or catch value), leaves the schema skipped are untouched
